@@ -8,6 +8,7 @@
 import BR.Scalar
 import BR.Gen.C15
 import BR.Model.Comms
+import BR.Model.MR
 
 namespace BR.Driver
 
@@ -46,6 +47,85 @@ def fmtRat (r : Rat) : String := if r.den = 1 then toString r.num else s!"{r.num
 
 def allSome {α} (l : List (Option α)) : Option (List α) :=
   l.foldr (fun x acc => match x, acc with | some a, some as => some (a :: as) | _, _ => none) (some [])
+
+namespace MRIO
+open BR.MR
+
+def v3 : List Float → Option (V3 Float × List Float)
+  | a :: b :: c :: r => some (⟨a, b, c⟩, r)
+  | _ => none
+def m3 : List Float → Option (M3 Float × List Float)
+  | a :: b :: c :: d :: e :: f :: g :: h :: i :: r => some (⟨a, b, c, d, e, f, g, h, i⟩, r)
+  | _ => none
+def v6 (l : List Float) : Option (V6 Float × List Float) := do
+  let (a, r) ← v3 l
+  let (b, r) ← v3 r
+  some (⟨a, b⟩, r)
+/-- 4×4 given row-major as 16 numbers; the bottom row is read and dropped -/
+def t4 : List Float → Option (T4 Float × List Float)
+  | a :: b :: c :: x :: d :: e :: f :: y :: g :: h :: i :: z :: _ :: _ :: _ :: _ :: r =>
+      some (⟨⟨a, b, c, d, e, f, g, h, i⟩, ⟨x, y, z⟩⟩, r)
+  | _ => none
+
+def oV3 (v : V3 Float) : List Float := [v.x, v.y, v.z]
+def oM3 (m : M3 Float) : List Float := [m.a11, m.a12, m.a13, m.a21, m.a22, m.a23, m.a31, m.a32, m.a33]
+def oV6 (v : V6 Float) : List Float := oV3 v.a ++ oV3 v.b
+/-- 4×4 row-major with the given bottom-right entry (1 for SE(3), 0 for se(3)) -/
+def oT4 (t : T4 Float) (br : Float) : List Float :=
+  [t.R.a11, t.R.a12, t.R.a13, t.p.x, t.R.a21, t.R.a22, t.R.a23, t.p.y, t.R.a31, t.R.a32, t.R.a33, t.p.z, 0, 0, 0, br]
+def oM6 (m : M6 Float) : List Float :=
+  [m.tl.a11, m.tl.a12, m.tl.a13, m.tr.a11, m.tr.a12, m.tr.a13,
+   m.tl.a21, m.tl.a22, m.tl.a23, m.tr.a21, m.tr.a22, m.tr.a23,
+   m.tl.a31, m.tl.a32, m.tl.a33, m.tr.a31, m.tr.a32, m.tr.a33,
+   m.bl.a11, m.bl.a12, m.bl.a13, m.br.a11, m.br.a12, m.br.a13,
+   m.bl.a21, m.bl.a22, m.bl.a23, m.br.a21, m.br.a22, m.br.a23,
+   m.bl.a31, m.bl.a32, m.bl.a33, m.br.a31, m.br.a32, m.br.a33]
+
+/-- joints given as n, then n screws (6 each), then n angles -/
+def joints (l : List Float) : Option (List (V6 Float × Float) × List Float) :=
+  match l with
+  | [] => none
+  | nf :: r =>
+    let n := nf.toUInt64.toNat
+    let rec go (k : Nat) (r : List Float) (acc : List (V6 Float)) : Option (List (V6 Float) × List Float) :=
+      match k with
+      | 0 => some (acc.reverse, r)
+      | k + 1 => match v6 r with
+        | some (s, r') => go k r' (s :: acc)
+        | none => none
+    match go n r [] with
+    | some (ss, r') =>
+      if r'.length < n then none else some (ss.zip (r'.take n), r'.drop n)
+    | none => none
+
+def handle (fn : String) (a : List Float) : Option (List Float) :=
+  match fn with
+  | "mr.nearzero" => match a with | [z] => some [if nearZero z then 1 else 0] | _ => none
+  | "mr.norm" => do let (v, _) ← v3 a; some [norm3 v]
+  | "mr.normalize" => do let (v, _) ← v3 a; some (oV3 (normalize v))
+  | "mr.hat" => do let (v, _) ← v3 a; some (oM3 (hat v))
+  | "mr.vee" => do let (m, _) ← m3 a; some (oV3 (vee m))
+  | "mr.axisang3" => do let (v, _) ← v3 a; let r := axisAng3 v; some (oV3 r.1 ++ [r.2])
+  | "mr.exp3" => do let (m, _) ← m3 a; some (oM3 (matrixExp3 m))
+  | "mr.log3" => do let (m, _) ← m3 a; some (oM3 (matrixLog3 m) ++ [Float.ofNat (log3Branch m)])
+  | "mr.transinv" => do let (t, _) ← t4 a; some (oT4 (transInv t) 1)
+  | "mr.hat6" => do let (v, _) ← v6 a; some (oT4 (hat6 v) 0)
+  | "mr.vee6" => do let (t, _) ← t4 a; some (oV6 (vee6 t))
+  | "mr.adjoint" => do let (t, _) ← t4 a; some (oM6 (adjoint t))
+  | "mr.ad" => do let (v, _) ← v6 a; some (oM6 (ad v))
+  | "mr.screwtoaxis" => do
+      let (q, r) ← v3 a; let (s, r) ← v3 r
+      match r with | [h] => some (oV6 (screwToAxis q s h)) | _ => none
+  | "mr.axisang6" => do let (v, _) ← v6 a; let r := axisAng6 v; some (oV6 r.1 ++ [r.2])
+  | "mr.exp6" => do let (t, _) ← t4 a; some (oT4 (matrixExp6 t) 1)
+  | "mr.log6" => do let (t, _) ← t4 a; some (oT4 (matrixLog6 m3IsZeroF t) 0)
+  | "mr.fkinspace" => do let (m, r) ← t4 a; let (j, _) ← joints r; some (oT4 (fkinSpace m j) 1)
+  | "mr.fkinbody" => do let (m, r) ← t4 a; let (j, _) ← joints r; some (oT4 (fkinBody m j) 1)
+  | "mr.jacobianspace" => do let (j, _) ← joints a; some ((jacobianSpace j).flatMap oV6)
+  | "mr.jacobianbody" => do let (j, _) ← joints a; some ((jacobianBody j).flatMap oV6)
+  | _ => none
+
+end MRIO
 
 /-- session state of the stateful models -/
 structure DState where
@@ -119,7 +199,14 @@ def handle (fn : String) (args : List String) : String :=
       | some [a,b,c,d,e,f,g,h,i,j,k,l,m,n,o,p,q,r] =>
           toString (obstruction2_gen a b c d e f g h i j k l m n o p q r)
       | _ => "bad-op"
-  | _ => "bad-op"
+  | _ =>
+    if fn.startsWith "mr." then
+      match allSome (args.map parseFloat) with
+      | some fl => match MRIO.handle fn fl with
+        | some out => " ".intercalate (out.map fmtFloat)
+        | none => "bad-op"
+      | none => "bad-op"
+    else "bad-op"
 
 partial def loop (h : IO.FS.Stream) (out : IO.FS.Stream) (st : DState) : IO Unit := do
   let line ← h.getLine
